@@ -88,8 +88,10 @@ class QAgg:
             self.inconclusive = d["inconclusive"]
         if d["error"] and not self.error:
             self.error = d["error"]
-        if len(self.samples) < 2:
-            self.samples.extend(d["samples"][:2 - len(self.samples)])
+        if len(self.samples) < 1:
+            self.samples.extend(d["samples"][:1])
+        if d["samples"]:
+            self.samples[1:2] = d["samples"][-1:]
         if d["functions"]:
             self.functions = d["functions"]
 
@@ -257,8 +259,8 @@ def run_check(pid, tier, seed, wall_cap=None, out_evidence=True, verbose=True):
     exhaustive = not inconclusive and not harness_errors
     samples = []
     for a in aggs:
-        samples.extend(a.samples[:1])
-    samples = samples[:6]
+        samples.extend(a.samples[-1:])
+    samples = samples[:8]
     if harness_errors:
         code = EXIT_HARNESS
     elif lines:
